@@ -1,6 +1,7 @@
 """C14 — every protocol message survives encoding and decoding unchanged (structural clauses)."""
 from ..ir import callee, short, walk, ctor_name, AnchorMissing
 from ..prov import Bindings
+from ..trace import Tracer
 from ..serde_rules import Shapes, lint, attr
 from .common import *
 
@@ -196,4 +197,43 @@ def rule_d(prog, rep):
     rep.floor('C14.d', n, 2, 'partial-write call sites')
 
 
-RULES = [('C14.d', rule_d), ('C14.a', rule_a), ('C14.b', rule_b), ('C14.c', rule_c)]
+def rule_e(prog, rep):
+    rep.rule('C14.e', 'T3', 'a failed line write ends the stream: write_line_and_flush writes a message in chunks and can fail (time '
+             'out) with part of the line on the wire; every writer loop therefore leaves the loop (break / return / `?`) on the '
+             'Err edge of write_line_and_flush - writing the next message after a failed one would glue it onto the fragment and '
+             'the peer would read one undecodable line')
+    n = 0
+    for cname in (WB, CLIENT):
+        crate = prog.crate(cname)
+        for f in crate.top_fns():
+            bodies = [f] + crate.closures_of(f)
+            sites = [(nd, anc, b_) for b_ in bodies for nd, anc in walk(b_.hir)
+                     if nd.get('k') == 'call' and short(callee(nd)) == 'write_line_and_flush']
+            for nd, anc, body_owner in sites:
+                loops = [a for a in anc if isinstance(a, dict) and a.get('k') in ('loop', 'for')]
+                n += 1
+                inst = f'{cname}::{short(f.path)}'
+                if not loops:
+                    rep.ok('C14.e', f'{inst}:single-write', loc(f, nd), 'a single write outside any loop (the function ends with it)')
+                    continue
+
+                def classify(x, a_, nd=nd):
+                    return 'w' if x is nd else None
+                tr = Tracer(crate, classify, closure_mode=lambda c_, cl: 'inline')
+                tr.env = {}
+                bp = tr.expr(loops[-1]['body'])
+                again = [t for (ex, t, v) in bp if 'w@Err' in t and (ex == 'fall' or ex.startswith('continue'))]
+                seen_err = any('w@Err' in t for (ex, t, v) in bp)
+                tried = any(isinstance(a, dict) and a.get('k') == 'try' for a in anc[-3:])
+                if again:
+                    rep.violation('C14.e', f'{inst}:loop', loc(f, nd), 'the writer loop goes on to the next message after a failed write: '
+                                  'a partly written line is followed by the next message', key=f'C14.e/{inst}/continues-after-error')
+                elif seen_err or tried:
+                    rep.ok('C14.e', f'{inst}:loop', loc(f, nd), 'the Err edge leaves the writer loop')
+                else:
+                    rep.violation('C14.e', f'{inst}:loop', loc(f, nd), 'unrecognised-shape: the result of write_line_and_flush is not examined',
+                                  key=f'C14.e/{inst}/unrecognised-shape')
+    rep.floor('C14.e', n, 6, 'write_line_and_flush call sites')
+
+
+RULES = [('C14.e', rule_e), ('C14.d', rule_d), ('C14.a', rule_a), ('C14.b', rule_b), ('C14.c', rule_c)]
